@@ -274,7 +274,7 @@ def latIdOf : Option Val → Option Nat
 def setLattice (o : Obj) (v : Val) : Obj :=
   { o with dict := setKey o.dict "_lattice" v, atoms := o.atoms.map (fun a => { a with lat := latIdOf (some v) }) }
 
-def defaultLatticeValue : String := "Lattice(1,1,1,90,90,90)"
+def defaultLatticeValue : String := "Lattice(1,1,1,90,90,90; base=1.000000,0.000000,0.000000,0.000000,1.000000,0.000000,0.000000,0.000000,1.000000)"
 
 /-- `Structure.__init__(self)` without arguments on an existing object: only a missing lattice is created -/
 def init0 (fresh : Nat) (o : Obj) : Obj :=
